@@ -54,6 +54,26 @@ func Dial(addr string) (*Ctl, error) {
 
 // Close resets the connection (SO_LINGER 0): no TIME_WAIT socket is left behind, so that hundreds of thousands of
 // short connections do not exhaust the ephemeral port range.
+// DialFrom is Dial with the local (source) address fixed, e.g. the ip:port a previous connection used.
+func DialFrom(addr, local string) (*Ctl, error) {
+	la, err := net.ResolveTCPAddr("tcp", local)
+	if err != nil {
+		return nil, err
+	}
+	d := net.Dialer{Timeout: 5 * time.Second, LocalAddr: la, Control: func(network, address string, rc syscall.RawConn) error {
+		var serr error
+		rc.Control(func(fd uintptr) { serr = syscall.SetsockoptInt(int(fd), syscall.SOL_SOCKET, syscall.SO_REUSEADDR, 1) })
+		return serr
+	}}
+	c, err := d.Dial("tcp", addr)
+	if err != nil {
+		return nil, err
+	}
+	k := &Ctl{C: c, raw: bufio.NewReaderSize(c, 8192), Timeout: 10 * time.Second, Local: c.LocalAddr().String()}
+	k.br = k.raw
+	return k, nil
+}
+
 // DialRcvBuf is Dial with SO_RCVBUF fixed before the connection is established (no receive-buffer autotuning),
 // so that a reader which stops reading really blocks a sender with a large response.
 func DialRcvBuf(addr string, rcvbuf int) (*Ctl, error) {
